@@ -51,6 +51,9 @@ if ! (cd "$S" && go build -tags verif -o "$S/dst16" . ) > "$S/build.log" 2>&1; t
 fi
 if [ "$1" = "replay" ]; then
   "$S/dst16" replay "$2"
+elif [ "$1" = "exec" ]; then
+  shift
+  "$@" "$S/dst16"   # selftest: hand the instrumented driver to a command
 else
   "$S/dst16" check C16 "$1"
 fi
